@@ -113,6 +113,10 @@ def plan_frame(rng, layer, base_ids, kind, bc):
     elif kind == "high-lanes" and ib:
         k0 = rng.choice([9, 12, 15, 18, 21, 24, 27])
         ids = [0x20 + k0 + j for j in range(len(ids))]
+    elif kind == "fatal-high-lane" and ib:
+        # an extra data word id that is no inner barrel lane (lane numbers 9..31) whose lane announces FATAL
+        high = rng.choice([0x29, 0x2A, 0x30, 0x3E, 0x3F, 0x20 + rng.randrange(9, 32)])
+        ids.insert(rng.randrange(len(ids) + 1), high)
     if kind == "shuffled" or rng.random() < 0.3:
         rng.shuffle(ids)
     lanes = []
@@ -121,7 +125,9 @@ def plan_frame(rng, layer, base_ids, kind, bc):
         ln = lane_number(idb, ib)
         chips = [ln & 0xF] if ib else (list(range(7)) if rng.random() < 0.7 else list(range(8, 15)))
         sk = [("chip", c, bc, rng.random() < 0.3, rng.choice([0, 0, 1, 2, 4, 8, 12, 14, 15, 6]), 0) for c in chips]
-        if k == special:
+        if kind == "fatal-high-lane" and ib and ln > 8:
+            sk = [("fatal", rng.choice(FATAL))]
+        elif k == special:
             if kind == "bc-lane-differs":
                 sk = [(t, c, (bc + 1) & 0xFF, e, tr, f) for t, c, _b, e, tr, f in sk]
             elif kind == "bc-chip-differs" and not ib:
@@ -286,7 +292,7 @@ def frame_starts(cd):
 
 
 KINDS = ["legal", "legal", "shuffled", "missing-lane", "extra-lane", "wrong-group", "other-group", "high-lanes", "bc-lane-differs", "bc-chip-differs", "chip-id-wrong",
-         "chip-count", "chip-order", "dup-chip", "fatal-announce", "empty"]
+         "chip-count", "chip-order", "dup-chip", "fatal-announce", "fatal-high-lane", "empty"]
 
 
 def run(tier, seed):
@@ -315,7 +321,7 @@ def run(tier, seed):
         fatal_gone = []     # lanes that announced fatal: legal later frames leave them out
         for f in range(nfr):
             kind = rng.choice(KINDS)
-            if kind in ("wrong-group", "chip-id-wrong", "other-group", "high-lanes") and not ib:
+            if kind in ("wrong-group", "chip-id-wrong", "other-group", "high-lanes", "fatal-high-lane") and not ib:
                 kind = "chip-order"
             if kind in ("bc-chip-differs", "chip-order") and ib:
                 kind = "bc-lane-differs"
@@ -327,6 +333,12 @@ def run(tier, seed):
                 lanes = []
             else:
                 ids = [i for i in base if lane_number(i, ib) not in fatal_gone or rng.random() < 0.15]
+                # lanes known as fatal that are none of the stave's lanes still lower the expected lane count: most later frames
+                # come with as many lanes fewer
+                nhigh = len(set(x for x in fatal_gone if ib and x > 8))
+                if nhigh and rng.random() < 0.7:
+                    for _ in range(min(nhigh, max(0, len(ids) - 1))):
+                        ids.pop(rng.randrange(len(ids)))
                 lanes = plan_frame(rng, layer, ids, kind, bc)
             for idb, sk in lanes:
                 if any(it[0] == "fatal" or (it[0] == "chip" and it[5]) for it in sk) and rng.random() < 0.8:
@@ -367,11 +379,14 @@ def run(tier, seed):
             line, raw, mod = lines[k], impl[k], model[k].strip()
             k += 1
             got = canon_linkt(raw)
+            if mod.startswith("PANIC:"):
+                mod = "PANIC"        # the site is compared by the C04 check; here: both crash or neither
             desc = {"stream": "frames", "layer": c["layer"], "kinds": c["kinds"], "style": v["style"], "custom": c["custom"], "case": line if len(line) < 6000 else line[:6000] + "..."}
             if got != mod:
                 chk.disagreements.append(dict(desc, impl=got[:600], model=mod[:600]))
             if got == "PANIC":
                 per_variant.append(None)
+                chk.spec_violations.append(dict(desc, what="the validator crashes on this stream: its frames get no verdict", detail=raw[:300]))
                 continue
             starts = frame_starts(v["cd"])
             toks = [] if got == "-" else got.split(" ")
@@ -467,7 +482,7 @@ def run(tier, seed):
     shutil.rmtree(tmp, ignore_errors=True)
     chk.cov["rule"] = ("streams of 1..5 readout frames of one stave (layers 0..6; IB groups, the two ML and OL lane sets), each frame planned as: legal / lane order shuffled / a lane "
                        "missing / an extra lane / wrong IB group / one lane with another bunch counter / one chip with another bunch counter / wrong IB chip id / chip count / "
-                       "chip order (custom chip_count_ob + chip_orders_ob on half of the OB streams) / a chip twice / a lane announcing FATAL (later frames mostly without it) / "
+                       "chip order (custom chip_count_ob + chip_orders_ob on half of the OB streams) / a chip twice / a lane announcing FATAL (later frames mostly without it) / an extra word id that is no inner barrel lane announcing FATAL (later frames with as many lanes fewer) / "
                        "no data words; every stream encoded three times by the independent encoder: without hits, with ordinary hits, with adversarial hit bytes (values that "
                        "look like headers, trailers, protocol extensions, idle), filler words and idle bytes, lane words interleaved at random, frames split over packets by the "
                        "HBF builder, data formats 0 and 2. Judged per frame: codes E72..E75/E701 with lane/sub-check tags at the frame's start offset = documented verdict "
